@@ -461,6 +461,37 @@ def rep_case(args):
                 if worst > qc.MAX_LOCAL_CHALLENGES:
                     viol = ({"monitor": "bound.local_challenges"}, "%d local challenges" % worst)
                     break
+        elif name.startswith("ncid_dup_after_local_retire"):
+            # the endpoint retires k peer CIDs itself (change_connection_id), the peer's
+            # NEW_CONNECTION_ID frames for them are retransmitted (duplicates), and the compliant
+            # peer then issues replacements: it never has more than 8 active IDs and must not be accused
+            k = int(name[-1])
+            issued = {}
+            for r0 in bot.P.sent_packets:
+                for f in r0.frames or []:
+                    if f["t"] == "NEW_CONNECTION_ID":
+                        issued[f["seq"]] = f
+            for _ in range(k):
+                n += 1
+                bot.app("change_connection_id", lambda c: c.change_connection_id())
+                bot.ack()
+            for seq in range(1, k + 1):
+                if seq in issued:
+                    n += 1
+                    bot.send([dict(issued[seq])])
+            nxt = max(issued) + 1 if issued else 1
+            for j in range(k):
+                n += 1
+                bot.send([{"t": "NEW_CONNECTION_ID", "seq": nxt + j, "rpt": 0,
+                           "cid": bytes([0xA0 + j]) * 8, "token": bytes([j]) * 16}])
+                worst = max(worst, 1 + len(conn._peer_cid_available))
+                if conn._state.name != "CONNECTED":
+                    ev = conn._close_event
+                    viol = ({"monitor": "accused_compliant_peer", "move": "ncid_dup_after_local_retire",
+                             "code": getattr(ev, "error_code", None)},
+                            "peer retransmitted NEW_CONNECTION_ID for %d locally retired IDs and issued %d "
+                            "replacements (never more than 8 active) but E closed: %r" % (k, k, ev))
+                    break
         elif name == "never_finished_streams":
             ref = Ref(role == "server")
             sid = pb0
@@ -501,7 +532,7 @@ def rep_case(args):
     return (role, name, n, worst, conn._state.name, viol)
 
 
-REP = ["crypto_holes", "path_challenges", "ncid_retire_prior_to", "ncid_no_ack", "local_challenges",
+REP = ["ncid_dup_after_local_retire1", "ncid_dup_after_local_retire2", "ncid_dup_after_local_retire3", "crypto_holes", "path_challenges", "ncid_retire_prior_to", "ncid_no_ack", "local_challenges",
        "never_finished_streams"]
 
 
